@@ -26,8 +26,16 @@ STATE_PROGRAMS = [["-m", "wP", "-c", "e", "-m", "yy"], ["-m", '"Ayiw', "-m", '$"
                   ["-m", "n", "-c", "e", "-m", "/a<CR>"], ["-m", ";", "-m", "fa", "-c", "e"], ["-m", "gv", "-m", "d", "-m", "vey"]]
 
 
+# some lines give fields, others (emptied, or without a terminator) only their buffer: each line is still formatted alone
+MIX_PROGRAMS = [["-g", "foo", "-m", "dd", "--else", "-c", "e", "--end"], ["-v", "a", "-m", "0D", "--else", "-c", "$", "--end"],
+                ["-g", "1", "-m", "0D", "--else", "-c", "e", "-c", "$", "--end"], ["-g", "^l", "-c", "e", "--else", "-m", "dd", "--end"],
+                ["-v", "o", "-c", "w", "--else", "-m", "x", "--end"]]
+
+
 def gen_program(rng):
     r = rng.random()
+    if r < 0.06:
+        return list(rng.choice(MIX_PROGRAMS))
     if r < 0.2:
         # a line reads some editor state (register text or kind, dot, search, f/t, last selection) before it writes it
         return list(rng.choice(STATE_PROGRAMS))
@@ -81,6 +89,8 @@ def run(chk, binary):
             nfiles = rng.choice([1, 1, 2])
             files = [(nm, (text if i == 0 else rng.choice(INPUTS)).encode()) for i, nm in enumerate(rng.sample(D.FILE_NAMES, nfiles))]
             sc = {"files": files, "opts": opts, "cmds": cmds, "stdin": None}
+            if nfiles == 2 and rng.random() < 0.3:
+                sc["extra_args"] = [files[0][0]]        # the same path given twice, another one in between: it is one file
         else:
             sc = {"files": [], "opts": opts, "cmds": cmds, "stdin": text}
         if len(sc["opts"]) + len(sc["cmds"]) + len(sc["files"]) < 2:
